@@ -236,6 +236,7 @@ M_Init == /\\ heap = DoNewCircuit(DoAddOp(DoNewCircuit(<<>>, "n1", NoLink, <<"fi
                gen.leaf('Rx180', [1], [[1, 'MICROWAVE']], ['global', 'MW']), gen.leaf('Barrier', [0, 1], [[0, 'ALL'], [1, 'ALL']], ['fixed', 2])],
       reps=[('fixed', 1), ('fixed', 2)], configs=(gen.DEFAULT_CFG, CFG_A),
       acts=('NewCircuit', 'AddOp', 'AddSub', 'Apply', 'SetDur', 'Enter', 'Leave', 'Obs', 'CopyCirc'), linktypes=('FB',), max_circs=2,
+      obskinds=('full', 'plot', 'stim', 'ops'),
       max_objs=10, max_steps=9, simulate='num=%d' % (200 if quick else 3000), depth=10, min_emit=5, one_in=2, cap=1200 if quick else 15000, timeout=120,
       keep=lambda p: any(s['a'] == 'Obs' for s in p[:-1]))
     # (3) simulation: long programs over the full alphabet, overrides, registry durations, copies, unrolling
@@ -308,7 +309,12 @@ def counts_for(pid, clause, trace):
     if clause.startswith(pid + '.'):
         return True
     if clause.startswith('C00.'):
-        return True                     # an exception / unknown event inside a generated program concerns every property
+        err = next((e for e in trace if e['ev'] == 'Error'), None)
+        if err and err['a'].startswith('Obs:plot'):
+            return pid == 'C18'         # drawing must succeed: judged by C18
+        if err and err['a'] == 'Obs:stim':
+            return pid == 'C08'
+        return True                     # any other exception / unknown event inside a generated program concerns every property
     if pid == 'C05' and clause in ('C02.complete', 'C02.attrs') and any(e['ev'] in ('AddSub', 'CopyCirc', 'Apply') for e in trace):
         return True                     # independence: a copy (or its source) lists something it should not after a mutation
     if pid == 'C06' and clause in ('C01.eq.multi',):
@@ -366,6 +372,9 @@ def run(pid, tier):
             ev = traces[ti][f['l'] - 1] if f['l'] - 1 < len(traces[ti]) else {}
             v.fail(f['clause'], {'trace': ti, 'event': f['l'], 'obj': f['obj'], 'info': f['info']},
                    signature=signature(f, ev, traces[ti], programs[ti]), replay={'program': programs[ti]})
+    twin_stats = {}
+    if pid == 'C03':
+        twin_stats = erasure(v, programs, traces)
     nt = NONTRIVIAL.get(pid, lambda p: True)
     canon = set(json.dumps(p, sort_keys=True) for p in programs if nt(p))
     v.coverage.update({
@@ -379,7 +388,7 @@ def run(pid, tier):
                 'non-trivial = ' + RULES.get(pid, 'any'),
         'samples': [programs[0], programs[len(programs) // 2], programs[-1]][:3],
         'sources': [{k: s[k] for k in s if k != 'programs'} | {'used': len(s['programs'])} for s in sources],
-        'clause_failures_all_properties': per_clause,
+        'clause_failures_all_properties': per_clause, 'twin_runs': twin_stats,
         'mc': {'module': 'MCCircuit', 'distinct_states': mc.distinct, 'generated': mc.generated,
                'invariants': ['WF', 'SnapOK'], 'action_properties': ['UnrollProps', 'NTimesT', 'Independence']},
     })
@@ -439,6 +448,52 @@ def signature(f, ev, trace, prog):
         if home and home['rlink']['k'] == 'one' and home['rlink']['rt'] == 'JE':
             return 'je-block-handover'
     return None
+
+
+def finals(trace):
+    return [{'c': e['c'], 'snap': e['snap']} for e in trace if e['ev'] == 'Obs' and e.get('final')]
+
+
+def erasure(v, programs, traces):
+    """C03 twin runs: every history with an intermediate observation is executed again with those observations erased
+    (separate process); TLC (ErasureTrace) compares the final batteries."""
+    def aborted(t):
+        return any(e['ev'] == 'Error' and e['a'].startswith('Obs:') for e in t)     # judged by C18 / C08
+    idx = [i for i, p in enumerate(programs) if any(s['a'] == 'Obs' for s in p) and not aborted(traces[i])]
+    erased = [[s for s in programs[i] if s['a'] != 'Obs'] for i in idx]
+    tb = execute(erased)
+    rows = []
+    for k, i in enumerate(idx):
+        rows.append({'a': finals(traces[i]), 'b': finals(tb[k])})
+    sc = scratch()
+    tin, tout = os.path.join(sc, 'erasure_in.json'), os.path.join(sc, 'erasure_out.json')
+    json.dump(rows, open(tin, 'w'))
+    r = run_tlc('ErasureTrace', 'SPECIFICATION Spec\n', env={'VERIF_IN': tin, 'VERIF_OUT': tout}, workers=1, timeout=1200)
+    res = json.load(open(tout))
+    if res['n'] != len(rows):
+        raise common.MachineryError('erasure validation consumed %s of %d rows' % (res['n'], len(rows)))
+    for f in res['fails']:
+        i = idx[f['row'] - 1]
+        ta, tbk = traces[i], tb[f['row'] - 1]
+        for cl, obj in f['clauses']:
+            sig = None
+            fa = {x['c']: x['snap'] for x in finals(ta)}
+            fb = {x['c']: x['snap'] for x in finals(tbk)}
+
+            def stale(snaps):
+                for sn in snaps.values():
+                    o = sn['leaves'].get(obj) or sn['comps'].get(obj)
+                    if o and (o['start'] != o.get('start_c', o['start']) or o.get('dur_c', o['dur_v']) != o['dur_v']):
+                        return True
+                return False
+            if cl in ('C03.erasure.operation', 'C03.erasure.block') and (stale(fa) or stale(fb)) and \
+                    (memo_trigger(ta, len(ta)) or memo_trigger(tbk, len(tbk))):
+                sig = 'stale-memo'
+            elif cl in ('C03.erasure.operation', 'C03.erasure.indices', 'C03.erasure.export') and \
+                    any(twin_trigger(ta, len(ta), c) for c in fa):
+                sig = 'twin-circuit-registry'
+            v.fail(cl, {'trace': i, 'obj': obj}, signature=sig, replay={'program': programs[i], 'erased': erased[f['row'] - 1]})
+    return {'twin_histories': len(rows), 'tlc_states': r.distinct, 'rejected_pairs': len(res['fails'])}
 
 
 def compact(prog):
